@@ -406,6 +406,15 @@ impl<'a> Sim<'a> {
         }
     }
 
+    #[cfg(feature = "verif-hooks")]
+    pub(crate) fn verif_with_host<R>(
+        &self,
+        addr: IpAddr,
+        f: impl FnOnce(&crate::host::Host) -> R,
+    ) -> R {
+        f(self.world.borrow().hosts.get(&addr).expect("missing host"))
+    }
+
     /// Step the simulation.
     ///
     /// Runs each host in the simulation a fixed duration configured by
@@ -437,6 +446,10 @@ impl<'a> Sim<'a> {
         if self.config.random_node_order {
             running.shuffle(&mut self.world.borrow_mut().rng);
         }
+        #[cfg(feature = "verif-hooks")]
+        crate::verif::record(crate::verif::Decision::HostOrder(
+            running.iter().map(|(a, _)| **a).collect(),
+        ));
 
         for (&addr, rt) in running {
             let _span_guard = tracing::span!(Level::INFO, "node", name = &*rt.nodename,).entered();
